@@ -268,21 +268,7 @@ func runC15(c *Ctx) {
 				return true
 			}
 			n++
-			bad := ""
-			for _, a := range lexicalGuards(pm, as, rq.Decl.Body) {
-				ast.Inspect(a.E, func(m ast.Node) bool {
-					call, ok := m.(*ast.CallExpr)
-					if !ok {
-						return true
-					}
-					if fn := Callee(info, call); fn != nil && fn.Pkg() != nil && fn.Pkg().Path() == "errors" && fn.Name() == "Is" && len(call.Args) == 2 {
-						if o := objOf(info, call.Args[1]); o == nil || o.Pkg() == nil || o.Pkg().Path() != "context" || o.Name() != "Canceled" {
-							bad = exprStr(call)
-						}
-					}
-					return true
-				})
-			}
+			bad := rangeSliceErrGuard(info, pm, as, rq.Decl.Body)
 			c.Check(bad == "", "C15-R1", "RangeQuery:only context.Canceled slice errors are ignored", as.Pos(), "every other slice error fails the query", "`"+bad+"` makes a slice failure disappear: the range query returns a partial or empty success instead of an unavailability error, so no failover happens and checks see `no data`")
 			return true
 		})
@@ -803,4 +789,30 @@ func c15Safe(info *types.Info, a Atom, errObj, resObj types.Object) bool {
 		return true
 	}
 	return false
+}
+
+
+// rangeSliceErrGuard inspects the conditions guarding `lastErr = result.err`
+// in Prometheus.RangeQuery: besides the err != nil test the only accepted
+// exclusion is errors.Is(result.err, context.Canceled). Returns the offending
+// expression, or "".
+func rangeSliceErrGuard(info *types.Info, pm map[ast.Node]ast.Node, as ast.Node, stop ast.Node) string {
+	bad := ""
+	for _, a := range lexicalGuards(pm, as, stop) {
+		ast.Inspect(a.E, func(m ast.Node) bool {
+			call, ok := m.(*ast.CallExpr)
+			if !ok {
+				return true
+			}
+			fn := Callee(info, call)
+			if fn != nil && fn.Pkg() != nil && fn.Pkg().Path() == "errors" && fn.Name() == "Is" && len(call.Args) == 2 {
+				if o := objOf(info, call.Args[1]); o != nil && o.Pkg() != nil && o.Pkg().Path() == "context" && o.Name() == "Canceled" {
+					return false
+				}
+			}
+			bad = exprStr(call)
+			return false
+		})
+	}
+	return bad
 }
